@@ -828,8 +828,9 @@ def _coq_lines(lines):
 
 
 def _coq_views(first, others):
-    """every distinct view once (impl_run dropped those equal to the first); fixed order"""
-    vs = [first] + [others[n] for n in sorted(others)]
+    """the first view and (at most two of) the views that differ from it (impl_run dropped those equal to the
+    first): the first or a differing one is bound to differ from the model; fixed order"""
+    vs = [first] + [others[n] for n in sorted(others)[:2]]
     return "[" + "; ".join(_coq_lines(ls) for ls in vs) + "]"
 
 
